@@ -3,6 +3,7 @@
   and `_get_ancestors_of` computes exactly the least set closed under the traversal rules.
 -/
 import PgmVerif.Proofs.Closure
+import PgmVerif.Proofs.DSep
 namespace PgmVerif
 open DG
 
@@ -64,6 +65,24 @@ theorem C08_reach_exact (g : DG) (hg : g.WFG) (obs : List Var) (x : Var) (hx : x
         · obtain ⟨p, hp', rfl⟩ := List.mem_map.mp h; exact hp p hp'
         · cases h
   · rw [DG.states_length]; omega
+
+/-- **d-separation answers match the path-based definition.**  For an acyclic graph and an
+    unobserved start node `x`: the state `(y, d)` is reached by the traversal of
+    `active_trail_nodes` iff there is a trail x = n₀ — n₁ — … — n_k = y (consecutive nodes adjacent,
+    nodes may repeat) on which every interior non-collider is unobserved and every interior
+    collider is an ancestor-or-self of an observed node (`C08_ancestors_exact`), `d` recording the
+    direction of the last edge.  `ActiveRev` is that definition on the reversed node list. -/
+theorem C08_reach_iff_active_trail (g : DG) (hg : g.WFG) (hac : Acyclic g.edges) (obs : List Var)
+    (x : Var) (hx : x ∈ g.nodes) (hxo : x ∉ obs) (y : Var) (d : Bool) :
+    (y, d) ∈ g.reach obs x ↔
+      ∃ l : List Var, l.head? = some y ∧ l.getLast? = some x ∧
+        DSep.ActiveRev g obs (g.ancestorsOf obs) l ∧ DSep.ArrDir g l d := by
+  rw [C08_reach_exact g hg obs x hx (y, d)]
+  constructor
+  · intro h
+    exact gen_to_trail g hac obs (g.ancestorsOf obs) x (y, d) h
+  · rintro ⟨l, hh, hl, hact, harr⟩
+    exact trail_to_gen g hac obs (g.ancestorsOf obs) x hxo l y d hh hl hact harr
 
 /-- `_get_ancestors_of(zs)` = the nodes from which some member of `zs` is reachable along
     edges (reflexive-transitive closure of "parent of"), for every graph -/
